@@ -22,6 +22,8 @@ func main() {
 		cmdCheck(os.Args[2:])
 	case "bounded":
 		cmdBounded(os.Args[2:])
+	case "replay":
+		cmdReplay(os.Args[2:])
 	default:
 		fmt.Println("unknown command")
 		os.Exit(2)
